@@ -383,3 +383,87 @@ def none_safe_chain(func, use, text):
     srcs = [c.entry] + [n for n in c.nodes if is_def(n)]
     p = c.reach(srcs, lambda n: n.id in ids, block_node=lambda n: is_def(n) and n.id not in ids, block_edge=block_edge)
     return None if p is None else c.describe(p)
+
+
+# ---------------------------------------------------------------------------- PATH-PREFIX rule
+_PATHY = ('path', 'dir', 'folder')
+
+
+def _pathy(func, e, depth=0):
+    """does the expression denote a filesystem path in string form (by construction or by the repo's naming)?"""
+    if isinstance(e, ast.Call) and isinstance(e.func, ast.Name) and e.func.id == 'str' and e.args:
+        return True
+    if isinstance(e, ast.Call) and isinstance(e.func, ast.Attribute) and e.func.attr in ('join', 'abspath', 'realpath', 'dirname', 'normpath'):
+        return True
+    if isinstance(e, ast.BinOp) and isinstance(e.op, ast.Add):
+        return _pathy(func, e.left, depth)
+    ident = e.id if isinstance(e, ast.Name) else e.attr if isinstance(e, ast.Attribute) else None
+    if ident is None:
+        if isinstance(e, ast.Subscript):
+            return _pathy(func, e.value, depth)
+        return False
+    if any(k in ident.lower() for k in _PATHY):
+        return True
+    if isinstance(e, ast.Name) and depth < 2:
+        # a loop / comprehension variable over a collection of paths (`for p in sys_path`), or p = str(path)
+        for n in ast.walk(func):
+            if isinstance(n, (ast.For, ast.comprehension)) and any(isinstance(x, ast.Name) and x.id == e.id for x in ast.walk(n.target)):
+                if _pathy(func, n.iter, depth + 1):
+                    return True
+            if isinstance(n, ast.Assign) and any(isinstance(t, ast.Name) and t.id == e.id for t in n.targets) and _pathy(func, n.value, depth + 1):
+                return True
+    return False
+
+
+def _ends_with_separator(e):
+    if isinstance(e, ast.BinOp) and isinstance(e.op, ast.Add):
+        r = e.right
+        if isinstance(r, ast.Constant) and r.value in ('/', '\\'):
+            return True
+        if norm(r) in ('os.path.sep', 'os.sep', 'sep', 'os.path.sep'):
+            return True
+    if isinstance(e, ast.Call) and norm(e.func) == 'os.path.join' and e.args and isinstance(e.args[-1], ast.Constant) and e.args[-1].value == '':
+        return True
+    return False
+
+
+def path_prefix_sites(repo, modnames):
+    """[(func, qual, call)]: `<path string>.startswith(<path string>)` in the given modules"""
+    out = []
+    for mn in modnames:
+        m = repo.module(mn)
+        for q, f in sorted(m.defs.items()):
+            if not isinstance(f, FUNC_TYPES):
+                continue
+            for c in own_nodes(f):
+                if isinstance(c, ast.Call) and isinstance(c.func, ast.Attribute) and c.func.attr == 'startswith' and len(c.args) == 1:
+                    a = c.args[0]
+                    if isinstance(a, ast.Constant):
+                        continue
+                    if _pathy(f, c.func.value) and _pathy(f, a):
+                        out.append((f, q, c))
+    return out
+
+
+def path_prefix_check(repo, chk, rule, modnames, triaged=None, checked=None, floor=1):
+    """PATH-PREFIX: containment of one path in another is decided on whole components: a str.startswith between two path strings
+    needs a separator at the end of the prefix (or an explicit test of what follows); `/a/pkg` is a string prefix of `/a/pkg2/x.py`."""
+    triaged = triaged or {}
+    checked = checked or {}
+    sites = path_prefix_sites(repo, modnames)
+    for f, q, c in sites:
+        mod = getattr(c, '_mod', None)
+        key = (mod.name if mod else '?', q, norm(c))
+        if _ends_with_separator(c.args[0]):
+            chk.ob(rule, True, c, '`%s`: the prefix ends with a separator' % short(c, 60))
+        elif key in triaged:
+            chk.ob(rule, True, c, '`%s`: triaged (%s)' % (short(c, 60), triaged[key]))
+        elif key in checked:
+            why, fn = checked[key]
+            w = fn(repo, f, c)
+            chk.ob(rule, w is None, c, '`%s`: %s' % (short(c, 60), why), w or '', key='path-prefix|%s:%s|%s' % key)
+        else:
+            chk.ob(rule, False, c, 'path containment `%s` in %s is decided on whole path components' % (short(c, 60), q),
+                   'a plain string prefix: `/a/pkg` also matches `/a/pkg2/x.py`', key='path-prefix|%s:%s|%s' % key)
+    chk.floor(rule, len(sites), floor, '(string-prefix tests between paths)')
+    return sites
